@@ -110,18 +110,33 @@ def opFsplit : Handler := fun args _ =>
     | _, _, _ => bad
   | _ => bad
 
-/-- `cli.fmp f p => g:e;…`: stdout of `rust-number-theory <config>` with `to_find = factorization-mod-p`.
-The binary draws from its own generator, so there is no history to replay: the answer goes through the
-oracle only (the factorization is unique up to order). -/
+/-- `cli.fmp f p1,p2,… => p1=g:e;…|p2=…`: stdout of `rust-number-theory <config>` with
+`to_find = factorization-mod-p`. The binary draws from its own generator, so there is no history to
+replay: each answer goes through the oracle only (the factorization is unique up to order). One block
+per requested modulus, in the order requested, labelled with that modulus. -/
 def opCli : Handler := fun args impl =>
   match args with
-  | [fs, ps] => match parseInts? fs, ps.toInt? with
-    | some f0, some p =>
-      if p ≤ 1 then bad else
+  | [fs, pss] => match parseInts? fs, parseInts? pss with
+    | some f0, some ps =>
+      if ps.any (· ≤ 1) || ps.isEmpty then bad else
       let f := NTV.PolyG.fromRaw f0
-      ("-", if impl.startsWith "panic" then
-              (if (S.red p f).isEmpty then "skip:zero-polynomial" else "fail:panic-on-legal-input")
-            else judge p f impl)
+      let v :=
+        if impl.startsWith "panic" then
+          (if ps.any (fun p => (S.red p f).isEmpty) then "skip:zero-polynomial" else "fail:panic-on-legal-input")
+        else
+          let blocks := impl.splitOn "|"
+          if blocks.length != ps.length then "fail:one-block-per-modulus-expected-" ++ impl
+          else
+            let vs := (List.zip ps blocks).map (fun (p, b) =>
+              match b.splitOn "=" with
+              | [m, l] => if m.toInt? != some p then "fail:block-for-wrong-modulus-" ++ b else judge p f l
+              | _ => "fail:unexpected-" ++ b)
+            match vs.find? (·.startsWith "fail") with
+            | some w => w
+            | none => match vs.find? (·.startsWith "skip") with
+              | some w => w
+              | none => "ok"
+      ("-", v)
     | _, _ => bad
   | _ => bad
 
